@@ -372,9 +372,19 @@ func (e *fedEnv) buildEngine(ctx context.Context, o fedEngineOpts) (*engine.Exec
 			if r.ArgFirst {
 				arg = "first"
 			}
+			fc := plan.FieldConfiguration{TypeName: r.Parent, FieldName: r.Name, HasAuthorizationRule: fedProtected[r.Parent+"."+r.Name]}
 			if arg != "" {
-				fcs = append(fcs, plan.FieldConfiguration{TypeName: r.Parent, FieldName: r.Name,
-					Arguments: plan.ArgumentsConfigurations{{Name: arg, SourceType: plan.FieldArgumentSource}}})
+				fc.Arguments = plan.ArgumentsConfigurations{{Name: arg, SourceType: plan.FieldArgumentSource}}
+			}
+			if arg != "" || fc.HasAuthorizationRule {
+				fcs = append(fcs, fc)
+			}
+		}
+	}
+	for _, t := range s.Types {
+		for _, f := range t.Fields {
+			if fedProtected[t.Name+"."+f.Name] {
+				fcs = append(fcs, plan.FieldConfiguration{TypeName: t.Name, FieldName: f.Name, HasAuthorizationRule: true})
 			}
 		}
 	}
